@@ -4,7 +4,7 @@
      parse_meaning           an accepted text means what the TPS standard says, square by square
      parse_reserves          the reserves are those of the standard piece set
      parse_refuses           every must-refuse class is rejected
-     parse_unspecified_iff   Unspecified is exactly the int() limit class
+     never_unspecified       the parser never answers Unspecified (no error other than IllegalTPS)
      canonical_format        what the writer produces is canonical *)
 From Coq Require Import ZArith List Bool Lia.
 From TV Require gen.Consts.
@@ -180,7 +180,7 @@ Lemma parse_tps_three s b w m :
   parse_tps s =
     if negb (str_eqb w [ch_1] || str_eqb w [ch_2]) then Reject else
     if negb (is_ascii_digits m) then Reject else
-    if max_str_digits <? zlen m then Unspecified else
+    if max_str_digits <? zlen m then Reject else
     if int_of_digits m <? 1 then Reject else
     if (zlen (split ch_slash b) <? 3) || (8 <? zlen (split ch_slash b)) then Reject else
     match parse_rows (rev (split ch_slash b)) (zlen (split ch_slash b)) [] with
@@ -256,36 +256,36 @@ Proof.
   repeat split; reflexivity.
 Qed.
 
-(* ---------- Unspecified is the int() limit and nothing else ---------- *)
+(* ---------- no outcome other than Accept / Reject ---------- *)
 
-Theorem parse_unspecified_iff s : parse_tps s = Unspecified <-> over_int_limit s.
+Theorem never_unspecified s : parse_tps s <> Unspecified.
 Proof.
-  unfold over_int_limit. split.
-  - intros H. destruct (fields_cases s) as [Hn|(b & w & m & Hs)].
-    + rewrite parse_tps_not_three in H by assumption. discriminate.
-    + rewrite (parse_tps_three s b w m Hs) in H.
-      destruct (fields_three s b w m Hs) as (Hf & Hb & Hw & Hm).
-      destruct (str_eqb w [ch_1] || str_eqb w [ch_2]) eqn:Ew; [|discriminate]. cbn [negb] in H.
-      destruct (is_ascii_digits m) eqn:Ed; [|discriminate]. cbn [negb] in H.
-      apply who_ok_iff in Ew. apply is_ascii_digits_iff in Ed. destruct Ed as [Hne Hdig].
-      destruct (max_str_digits <? zlen m) eqn:El.
-      * apply Z.ltb_lt in El. rewrite Hf, Hw, Hm. simpl length. auto.
-      * exfalso.
-        destruct (int_of_digits m <? 1); [discriminate|].
-        destruct ((zlen (split ch_slash b) <? 3) || (8 <? zlen (split ch_slash b))) eqn:Es; [discriminate|].
-        destruct (parse_rows (rev (split ch_slash b)) (zlen (split ch_slash b)) []) as [squares|] eqn:Er; [|discriminate].
-        apply parse_rows_iff in Er. destruct Er as (rsqs & HF & ->). simpl app in H.
-        unfold from_squares in H. cbn [csize] in H.
-        assert (Hlen : zlen (concat rsqs) = zlen (rev (split ch_slash b)) * zlen (split ch_slash b)).
-        { apply rows_total_length; [unfold zlen; lia|assumption]. }
-        rewrite zlen_rev in Hlen. unfold zlen in Hlen at 1. rewrite Hlen in H. rewrite Z.eqb_refl in H. discriminate.
-  - intros (Hl & Hw & Hne & Hdig & Hlen).
-    unfold fields in Hl. destruct (split ch_space s) as [|b [|w [|m [|d l]]]] eqn:Hs; simpl in Hl; try lia.
-    destruct (fields_three s b w m Hs) as (_ & _ & Ew & Em). rewrite Ew in Hw. rewrite Em in *.
-    rewrite (parse_tps_three s b w m Hs).
-    apply who_ok_iff in Hw. rewrite Hw. cbn [negb].
-    rewrite (proj2 (is_ascii_digits_iff m)) by (split; assumption). cbn [negb].
-    replace (max_str_digits <? zlen m) with true by (symmetry; apply Z.ltb_lt; assumption). reflexivity.
+  intros H. destruct (fields_cases s) as [Hn|(b & w & m & Hs)].
+  - rewrite parse_tps_not_three in H by assumption. discriminate.
+  - rewrite (parse_tps_three s b w m Hs) in H.
+    destruct (str_eqb w [ch_1] || str_eqb w [ch_2]); [|discriminate]. cbn [negb] in H.
+    destruct (is_ascii_digits m); [|discriminate]. cbn [negb] in H.
+    destruct (max_str_digits <? zlen m); [discriminate|].
+    destruct (int_of_digits m <? 1); [discriminate|].
+    destruct ((zlen (split ch_slash b) <? 3) || (8 <? zlen (split ch_slash b))); [discriminate|].
+    destruct (parse_rows (rev (split ch_slash b)) (zlen (split ch_slash b)) []) as [squares|] eqn:Er; [|discriminate].
+    apply parse_rows_iff in Er. destruct Er as (rsqs & HF & ->). simpl app in H.
+    unfold from_squares in H. cbn [csize] in H.
+    assert (Hlen : zlen (concat rsqs) = zlen (rev (split ch_slash b)) * zlen (split ch_slash b)).
+    { apply rows_total_length; [unfold zlen; lia|assumption]. }
+    rewrite zlen_rev in Hlen. unfold zlen in Hlen at 1. rewrite Hlen in H. rewrite Z.eqb_refl in H. discriminate.
+Qed.
+
+(* the over-limit class in particular is refused *)
+Lemma over_int_limit_refused s : over_int_limit s -> parse_tps s = Reject.
+Proof.
+  intros (Hl & Hw & Hne & Hdig & Hlen).
+  unfold fields in Hl. destruct (split ch_space s) as [|b [|w [|m [|d l]]]] eqn:Hs; simpl in Hl; try lia.
+  destruct (fields_three s b w m Hs) as (_ & _ & Ew & Em). rewrite Ew in Hw. rewrite Em in *.
+  rewrite (parse_tps_three s b w m Hs).
+  apply who_ok_iff in Hw. rewrite Hw. cbn [negb].
+  rewrite (proj2 (is_ascii_digits_iff m)) by (split; assumption). cbn [negb].
+  replace (max_str_digits <? zlen m) with true by (symmetry; apply Z.ltb_lt; assumption). reflexivity.
 Qed.
 
 (* ---------- meaning ---------- *)
@@ -375,13 +375,14 @@ Proof. unfold is_mark_char, is_piece_char, ch_S, ch_C, ch_x, ch_1, ch_2, ch_8. l
 Lemma parsed_not_must_refuse s p : parsed s p -> must_refuse s -> False.
 Proof.
   intros Hp Hm. pose proof Hp as [Hf Hw Hdg Hl Hv Hsz Hrows].
-  destruct Hm as [Hn|Hw1 Hw2|Hm|c Hc Hnd|Hlt|Hrow|Hcell|rest Hcell Hne Hbad|m post Hcell Hmk
+  destruct Hm as [Hn|Hw1 Hw2|Hm|c Hc Hnd|Hlt|Hlong|Hrow|Hcell|rest Hcell Hne Hbad|m post Hcell Hmk
                   |pre m c post Hcell Hmk|cell c Hcell Hnx Hc Hnp Hnm|g Hg Hrag|Hs].
   - rewrite Hf in Hn. simpl in Hn. lia.
   - destruct Hw; contradiction.
   - rewrite Hm in Hdg. discriminate.
   - apply is_ascii_digits_iff in Hdg. destruct Hdg as [_ Hdg]. apply Hnd. apply Hdg. assumption.
   - rewrite <- int_of_digits_dec in Hlt. lia.
+  - lia.
   - destruct (parsed_group s p [] Hp Hrow) as (rsq & Hr & _). discriminate.
   - destruct (parsed_cell s p [] Hp Hcell) as (sqs & Hs).
     destruct (cell_shape_cases _ _ Hs) as [E|[(d & E & _)|(cols & k & Hne & E)]]; try discriminate.
@@ -416,31 +417,12 @@ Proof.
   - lia.
 Qed.
 
-Theorem parse_refuses s : must_refuse s -> ~ over_int_limit s -> parse_tps s = Reject.
+Theorem parse_refuses s : must_refuse s -> parse_tps s = Reject.
 Proof.
-  intros Hm Hn. destruct (parse_tps s) as [p| |] eqn:E.
+  intros Hm. destruct (parse_tps s) as [p| |] eqn:E.
   - exfalso. apply parse_accept_iff in E. exact (parsed_not_must_refuse s p E Hm).
   - reflexivity.
-  - exfalso. apply Hn. apply parse_unspecified_iff. assumption.
-Qed.
-
-(* the classes that are decided before int() is called need no guard *)
-Theorem parse_refuses_early s :
-  (length (fields s) <> 3%nat \/ (who_field s <> [ch_1] /\ who_field s <> [ch_2]) \/
-   move_field s = [] \/ (exists c, In c (move_field s) /\ ~ is_digit_char c)) ->
-  parse_tps s = Reject.
-Proof.
-  intros H. apply parse_refuses.
-  - destruct H as [H|[[H1 H2]|[H|(c & Hc & Hn)]]].
-    + apply mr_field_count. assumption.
-    + apply mr_player; assumption.
-    + apply mr_move_empty. assumption.
-    + apply (mr_move_not_digits s c); assumption.
-  - intros (Hl & Hw & Hne & Hd & _). destruct H as [H|[[H1 H2]|[H|(c & Hc & Hn)]]].
-    + contradiction.
-    + destruct Hw; contradiction.
-    + contradiction.
-    + apply Hn. apply Hd. assumption.
+  - exfalso. exact (never_unspecified s E).
 Qed.
 
 (* ---------- reader then writer on canonical texts ---------- *)
@@ -703,14 +685,13 @@ Proof. vm_compute. repeat split; reflexivity. Qed.
 
 (* must-refuse texts: "x3/x3/xa,x 1 1" (x followed by a letter), "1S2,x2/x3/x3 1 1" (buried wall) *)
 Definition ex_bad_x : str := [120;51;47;120;51;47;120;97;44;120; 32;49;32;49].
-Example ex_bad_x_refused : must_refuse ex_bad_x /\ ~ over_int_limit ex_bad_x /\ parse_tps ex_bad_x = Reject.
+Example ex_bad_x_refused : must_refuse ex_bad_x /\ parse_tps ex_bad_x = Reject.
 Proof.
-  split; [|split].
+  split.
   - apply (mr_bad_empty_run ex_bad_x [97]).
     + exists [120;97;44;120]. split; vm_compute; auto.
     + discriminate.
     + intros d E. inversion E. unfold ch_1, ch_8. lia.
-  - intros (_ & _ & _ & _ & H). vm_compute in H. discriminate.
   - vm_compute. reflexivity.
 Qed.
 Definition ex_buried : str := [49;83;50;44;120;50;47;120;51;47;120;51; 32;49;32;49].
@@ -733,12 +714,12 @@ Proof.
   - exists [49]. reflexivity.
   - vm_compute. reflexivity.
 Qed.
-(* over the interpreter's limit: the shape only, the 4301 digits are not written out *)
+(* over the interpreter's limit (refused before the board is looked at): the shape only, the 4301 digits are not written out *)
 Example ex_over_limit m :
   m <> [] -> (forall c, In c m -> is_digit_char c) -> max_str_digits < zlen m -> ~ In ch_space m ->
-  parse_tps ([120;51;47;120;51;47;120;97] ++ [32;49;32] ++ m) = Unspecified.
+  parse_tps ([120;51;47;120;51;47;120;97] ++ [32;49;32] ++ m) = Reject.
 Proof.
-  intros Hne Hd Hl Hsp. apply parse_unspecified_iff.
+  intros Hne Hd Hl Hsp. apply over_int_limit_refused.
   assert (Hs : split ch_space ([120;51;47;120;51;47;120;97] ++ [32;49;32] ++ m) = [[120;51;47;120;51;47;120;97]; [49]; m]).
   { change ([120;51;47;120;51;47;120;97] ++ [32;49;32] ++ m) with ([120;51;47;120;51;47;120;97] ++ ch_space :: ([49] ++ ch_space :: m)).
     rewrite split_app_sep by (vm_compute; intuition discriminate).
